@@ -670,6 +670,11 @@ func (w *World) Disconnect(c *Conn) {
 	c.VC.DisposeAsync()
 }
 
+// SendRequest sends a client request on the connection (Mode M actions).
+func (w *World) SendRequest(c *Conn, method, params string) {
+	w.send(c, ClientReq{Method: method, Params: params})
+}
+
 func (w *World) send(c *Conn, rq ClientReq) {
 	if rq.Raw != "" {
 		c.VC.Inject([]byte(rq.Raw))
